@@ -15,6 +15,8 @@ import (
 	"encoding/json"
 	"fmt"
 	"math/big"
+	"net"
+	"sync/atomic"
 	"time"
 	"io"
 	"net/http"
@@ -25,6 +27,7 @@ import (
 
 	"github.com/Cloud-Foundations/keymaster/lib/vip"
 	"github.com/tstranex/u2f"
+	ldapserver "github.com/vjeantet/ldapserver"
 )
 
 // ---------------------------------------------------------------------------
@@ -221,3 +224,90 @@ func (t *vU2FToken) signResponse(challengeB64 string) u2f.SignResponse {
 	sd := append(raw, vASN1Sig(t.key, tbs)...)
 	return u2f.SignResponse{KeyHandle: vB64u(t.handle), SignatureData: vB64u(sd), ClientData: vB64u(cd)}
 }
+
+// ---------------------------------------------------------------------------
+// LDAPS directory (vjeantet/ldapserver) with a steerable mode per server
+
+type vFakeLDAP struct {
+	mu     sync.Mutex
+	dirPw  map[string]string // shared directory content: user -> password
+	mode   string            // "up" | "err" | "down"
+	port   int
+	binds  int64
+	server *ldapserver.Server
+}
+
+var vLDAPCertOnce sync.Once
+var vLDAPTLS *tls.Config
+var vLDAPPool *x509.CertPool
+
+func vLDAPTLSConfig() (*tls.Config, *x509.CertPool) {
+	vLDAPCertOnce.Do(func() {
+		k, err := ecdsa.GenerateKey(elliptic.P256(), rand.Reader)
+		vMust(err)
+		tmpl := &x509.Certificate{SerialNumber: big.NewInt(99), Subject: pkix.Name{CommonName: "localhost"}, DNSNames: []string{"localhost"},
+			NotBefore: time.Now().Add(-time.Hour), NotAfter: time.Now().Add(24 * time.Hour), IsCA: true, BasicConstraintsValid: true,
+			KeyUsage: x509.KeyUsageDigitalSignature | x509.KeyUsageCertSign, ExtKeyUsage: []x509.ExtKeyUsage{x509.ExtKeyUsageServerAuth}}
+		der, err := x509.CreateCertificate(rand.Reader, tmpl, tmpl, &k.PublicKey, k)
+		vMust(err)
+		c, _ := x509.ParseCertificate(der)
+		vLDAPPool = x509.NewCertPool()
+		vLDAPPool.AddCert(c)
+		vLDAPTLS = &tls.Config{Certificates: []tls.Certificate{{Certificate: [][]byte{der}, PrivateKey: k}}}
+	})
+	return vLDAPTLS, vLDAPPool
+}
+
+func newFakeLDAP(dir map[string]string) *vFakeLDAP {
+	ldapserver.Logger = ldapserver.DiscardingLogger
+	f := &vFakeLDAP{dirPw: dir, mode: "up"}
+	cfg, _ := vLDAPTLSConfig()
+	srv := ldapserver.NewServer()
+	routes := ldapserver.NewRouteMux()
+	routes.Bind(func(w ldapserver.ResponseWriter, m *ldapserver.Message) {
+		atomic.AddInt64(&f.binds, 1)
+		r := m.GetBindRequest()
+		f.mu.Lock()
+		mode := f.mode
+		// bind DN: uid=<user>,ou=people,dc=example,dc=com
+		user := strings.TrimPrefix(strings.SplitN(string(r.Name()), ",", 2)[0], "uid=")
+		want, ok := f.dirPw[user]
+		f.mu.Unlock()
+		switch mode {
+		case "err":
+			res := ldapserver.NewBindResponse(ldapserver.LDAPResultUnavailable)
+			res.SetDiagnosticMessage("directory is busy")
+			w.Write(res)
+		case "down":
+			res := ldapserver.NewBindResponse(ldapserver.LDAPResultBusy)
+			res.SetDiagnosticMessage("no answer")
+			w.Write(res)
+		default:
+			if ok && want == string(r.AuthenticationSimple()) {
+				w.Write(ldapserver.NewBindResponse(ldapserver.LDAPResultSuccess))
+			} else {
+				res := ldapserver.NewBindResponse(ldapserver.LDAPResultInvalidCredentials)
+				res.SetDiagnosticMessage("invalid credentials")
+				w.Write(res)
+			}
+		}
+	})
+	srv.Handle(routes)
+	ready := make(chan struct{})
+	go srv.ListenAndServe("127.0.0.1:0", func(s *ldapserver.Server) {
+		f.port = s.Listener.Addr().(*net.TCPAddr).Port
+		s.Listener = tls.NewListener(s.Listener, cfg)
+		close(ready)
+	})
+	<-ready
+	f.server = srv
+	return f
+}
+
+func (f *vFakeLDAP) setMode(m string) {
+	f.mu.Lock()
+	f.mode = m
+	f.mu.Unlock()
+}
+
+func (f *vFakeLDAP) url() string { return fmt.Sprintf("ldaps://localhost:%d", f.port) }
